@@ -6,7 +6,9 @@
 EXTENDS Selectors, TLC, Json
 
 CONSTANTS MaxRules, MaxExtends, SelMenu, Targets,
-          MediaMenu     \* media contexts a rule may be wrapped in ("" = top level)
+          MediaMenu,    \* media contexts a rule may be wrapped in ("" = top level)
+          InnerMenu,    \* {FALSE} or {FALSE, TRUE}: may a rule carry declarations inside a nested '@media screen' of its own?
+          ChainMode     \* TRUE: the sheet is a permutation of the four rules of Chain (every order of a three-link @extend chain)
 
 VARIABLES rules, done
 vars == <<rules, done>>
@@ -41,15 +43,25 @@ HasNotSel(sl) == \E i \in 1..Len(sl) : \E j \in 1..Len(sl[i]) : HasNotSelCmp(sl[
 
 Init == rules = <<>> /\ done = FALSE
 NExt == Cardinality({i \in 1..Len(rules) : rules[i].ext # ""})
-AddRule(name, t, opt, md) ==
+\* .x <- .y <- %p <- b : every rule order must give the same crediting
+Chain == << [name |-> ".x", ext |-> "", optional |-> FALSE, media |-> "", inner |-> FALSE],
+            [name |-> ".y", ext |-> ".x", optional |-> FALSE, media |-> "", inner |-> FALSE],
+            [name |-> "%p", ext |-> ".y", optional |-> FALSE, media |-> "", inner |-> FALSE],
+            [name |-> "b", ext |-> "%p", optional |-> FALSE, media |-> "", inner |-> FALSE] >>
+AddChain(k) == /\ ChainMode /\ ~done /\ ~(\E i \in 1..Len(rules) : rules[i] = Chain[k])
+               /\ rules' = Append(rules, Chain[k]) /\ UNCHANGED done
+AddRule(name, t, opt, md, inn) ==
+  /\ ~ChainMode
+  /\ (inn => md = "")
   /\ ~done /\ Len(rules) < MaxRules
   /\ (t # "" => NExt < MaxExtends)
   /\ (t = "" => ~opt)
   /\ (opt => t = ".zz")
   /\ (t # "" => ~HasNotSel(Sel(name)))      \* an extender with :not() makes crediting non-monotone (paradoxical sheets): not generated                      \* !optional is only interesting where the target may be missing
-  /\ rules' = Append(rules, [name |-> name, ext |-> t, optional |-> opt, media |-> md]) /\ UNCHANGED done
-Finish == ~done /\ NExt > 0 /\ done' = TRUE /\ UNCHANGED rules
-Next == (\E n \in SelMenu, t \in Targets \cup {""}, o \in BOOLEAN, md \in MediaMenu : AddRule(n, t, o, md)) \/ Finish
+  /\ rules' = Append(rules, [name |-> name, ext |-> t, optional |-> opt, media |-> md, inner |-> inn]) /\ UNCHANGED done
+Finish == ~done /\ NExt > 0 /\ (ChainMode => Len(rules) = Len(Chain)) /\ done' = TRUE /\ UNCHANGED rules
+Next == (\E n \in SelMenu, t \in Targets \cup {""}, o \in BOOLEAN, md \in MediaMenu, inn \in InnerMenu : AddRule(n, t, o, md, inn))
+        \/ (\E k \in 1..Len(Chain) : AddChain(k)) \/ Finish
 Spec == Init /\ [][Next]_vars
 
 Exts == LET idx == SelectSeq([i \in 1..Len(rules) |-> i], LAMBDA i : rules[i].ext # "")
@@ -72,8 +84,9 @@ CreditMonotone == done => \A dom \in {d \in Doms : Len(d) <= 2} : \A n \in 1..Le
                      Native(dom)[n] \subseteq Credit(dom, Exts, 4)[n]
 
 Line(i) == (IF rules[i].media # "" THEN "@media " \o rules[i].media \o " { " ELSE "") \o rules[i].name \o " { " \o (IF rules[i].ext # "" THEN "@extend " \o rules[i].ext \o (IF rules[i].optional THEN " !optional" ELSE "") \o "; " ELSE "")
-           \o "r: " \o ToString(i) \o "; }" \o (IF rules[i].media # "" THEN " }" ELSE "")
+           \o "r: " \o ToString(i) \o "; " \o (IF rules[i].inner THEN "@media screen { r2: " \o ToString(i) \o "; } " ELSE "") \o "}"
+           \o (IF rules[i].media # "" THEN " }" ELSE "")
 Emit == done => PrintT(<<"CASE", ToJson([scss |-> [i \in 1..Len(rules) |-> Line(i)],
-                                         sels |-> [i \in 1..Len(rules) |-> Sel(rules[i].name)], medias |-> [i \in 1..Len(rules) |-> rules[i].media], crossmedia |-> CrossMedia,
+                                         sels |-> [i \in 1..Len(rules) |-> Sel(rules[i].name)], medias |-> [i \in 1..Len(rules) |-> rules[i].media], inners |-> [i \in 1..Len(rules) |-> rules[i].inner], crossmedia |-> CrossMedia,
                                          exts |-> Exts, compoundonly |-> CompoundOnly, missing |-> MissingTarget])>>)
 =============================================================================
